@@ -5,16 +5,18 @@
 
    The ghost specification is the one of Proofs/C01Spec.v: g : client -> (data,
    user ID), what each client's own acknowledged handler operations last wrote
-   (g_script: Set, Delete, LogIn, LogOut; Destroy forgets the client), with the
+   (g_script: Set, Delete, GetAndDelete — the key is removed —, LogIn, LogOut;
+   Destroy forgets the client), with the
    user-wide operations tracked the way they act: LogOut(userID) and another
    session's exclusive LogIn take that user away from every client (g_drop_user);
    RefreshUser changes no user ID. g_run g hs os checks every request step: a
    returned session has exactly the client's ghost content, or is empty, without
    user, under an ID drawn in that very step.
 
-   Admissible histories (c01_hop false): any number of clients, all presenting
-   their cookie jars (no forged cookies), no planned faults, no crashes, no
-   GetAndDelete in handler scripts (C01_with_getdel_refuted, defect D6); every
+   Admissible histories c01_hop: any number of clients, all presenting
+   their cookie jars (no forged cookies), no planned faults, no crashes, any
+   handler scripts (GetAndDelete included: it writes through since the repair
+   of defect D6); every
    configuration, every tie-break list, waits (clean-ups), purges, cache loss,
    restarts, user-wide logouts and refreshes, configuration changes.
    Restriction of what is proved: configuration changes keep the codec
@@ -32,18 +34,18 @@ From Sessions Require Proofs.HistInv Proofs.HistInv3 Proofs.StartLaws5.
 (* The safety half of C01 for every admissible history whose configuration
    changes keep the codec of the initial configuration. *)
 Theorem C01_safety_hist :
-  forall c hs, forallb (c01_hop false) hs = true -> codec_fixed c hs = true ->
+  forall c hs, forallb c01_hop hs = true -> codec_fixed c hs = true ->
   g_run [] hs (run c hs) = true.
 Proof. exact c01_safety_codec_fixed. Qed.
 
 (* the same with the well-formedness predicate of C09 (wf_hist) *)
 Theorem C01_safety_wf :
-  forall c hs, wf_hist c hs = true -> forallb (c01_hop false) hs = true -> g_run [] hs (run c hs) = true.
+  forall c hs, wf_hist c hs = true -> forallb c01_hop hs = true -> g_run [] hs (run c hs) = true.
 Proof. exact c01_safety. Qed.
 
 (* in particular for histories without configuration changes *)
 Theorem C01_safety_fixed_cfg :
-  forall c hs, forallb (c01_hop false) hs = true -> no_setcfg hs = true -> g_run [] hs (run c hs) = true.
+  forall c hs, forallb c01_hop hs = true -> no_setcfg hs = true -> g_run [] hs (run c hs) = true.
 Proof.
   exact (fun c hs H1 H2 => c01_safety_codec_fixed c hs H1 (no_setcfg_fixed c hs H2)).
 Qed.
@@ -54,7 +56,7 @@ Qed.
    without user, and its ID was drawn in this step. *)
 Theorem C01_step_spec :
   forall c hs r,
-  forallb (c01_hop false) (hs ++ [HReq r]) = true -> codec_fixed c (hs ++ [HReq r]) = true ->
+  forallb c01_hop (hs ++ [HReq r]) = true -> codec_fixed c (hs ++ [HReq r]) = true ->
   let w := HistInv3.after (mkWorld (init_st c) []) hs in
   let g := g_after [] hs (run c hs) in
   let o := snd (step w (HReq r)) in
@@ -102,7 +104,7 @@ Proof. exact JI_init. Qed.
    admissible for the ghost. *)
 Theorem C01_jar_inv_step :
   forall w g h j,
-  JI w g -> c_json (conf (w_st w)) = j -> wf_hop j h = true -> c01_hop false h = true ->
+  JI w g -> c_json (conf (w_st w)) = j -> wf_hop j h = true -> c01_hop h = true ->
   JI (fst (step w h)) (snd (g_step g h (snd (step w h)))) /\
   fst (g_step g h (snd (step w h))) = true /\
   c_json (conf (w_st (fst (step w h)))) = j.
@@ -112,7 +114,7 @@ Proof. exact step_JI. Qed.
 Theorem C01_jar_inv_hist :
   forall j hs w g,
   JI w g -> c_json (conf (w_st w)) = j ->
-  forallb (wf_hop j) hs = true -> forallb (c01_hop false) hs = true ->
+  forallb (wf_hop j) hs = true -> forallb c01_hop hs = true ->
   JI (HistInv3.after w hs) (g_after g hs (run_from w hs)) /\ c_json (conf (w_st (HistInv3.after w hs))) = j.
 Proof. exact JI_after. Qed.
 
@@ -191,6 +193,7 @@ Print Assumptions C01_live_run_partial.
 (* non-vacuity and tests (Proofs/C01HistEx.v, Proofs/C01Live.v) *)
 Print Assumptions hist_mix_safe.
 Print Assumptions hist_cfg_safe.
+Print Assumptions hist_gd_safe.
 Print Assumptions step_spec_instance.
 Print Assumptions JI_instance.
 Print Assumptions live_step_instance.
